@@ -115,7 +115,18 @@ func checkC03(cx *Ctx, r *Report) {
 		a, s1 := vf.CallArgSources(matchStorage("SetUserinfoWithUserID"), 2)
 		b, s2 := vf.CallArgSources(matchFnKey(w, "provider.(*Response).makeSuccessfulResponse"), 1)
 		if len(s1) == 1 && len(s2) == 1 {
-			r.Check(len(a.leaves()) == 1 && len(b.leaves()) == 1 && a.leaves()[0] == b.leaves()[0], "R-VFG", "callback:same-attributes-object", w.InstrPos(s2[0]), "the response is built from the object storage filled", "the response is built from a different Attributes object than the one storage filled")
+			// (a helper that loads the user hands back nil together with its error: the nil is not an object)
+			nonNil := func(ls LabelSet) []string {
+				var out []string
+				for _, l := range ls.leaves() {
+					if l != "const:zero" {
+						out = append(out, l)
+					}
+				}
+				return out
+			}
+			al, bl := nonNil(a), nonNil(b)
+			r.Check(len(al) == 1 && len(bl) == 1 && al[0] == bl[0], "R-VFG", "callback:same-attributes-object", w.InstrPos(s2[0]), "the response is built from the object storage filled", "the response is built from a different Attributes object than the one storage filled")
 		}
 	}
 
